@@ -300,8 +300,11 @@ func deadClass(src []utils.Source, expr string) string {
 		if strings.Contains(expr, "bool") {
 			return "static-comparison-with-bool-modifier-declared-dead"
 		}
-		if reMetric.MatchString(expr) {
-			return "static-value-assumed-through-vector-matching-with-a-selector"
+		if reMetric.MatchString(expr) || strings.Contains(expr, "on(") || strings.Contains(expr, "ignoring(") {
+			return "static-value-assumed-through-vector-matching"
+		}
+		if strings.Contains(expr, "group(") || strings.Contains(expr, "group by") || strings.Contains(expr, "group without") {
+			return "static-value-assumed-through-group-aggregation"
 		}
 	}
 	return fmt.Sprintf("dead=%v with=%v", rs, feats)
